@@ -1,6 +1,7 @@
 import Vegeta.Go.Proto
 import Vegeta.Model.Quantile
 import Vegeta.Model.TDigestMerge
+import Vegeta.Model.LatencySeq
 import Vegeta.Extracted.Facts
 /-! Driver operations of property C11 (ops are named `c11.<name>`).
 Floats travel as the decimal rendering of their IEEE-754 bit pattern; the model runs over
@@ -22,9 +23,16 @@ Compression pass (Model/TDigestMerge.lean), with the two parameters supplied as 
              `t (soFar limit)*` (the limit computed after each newly started centroid, keyed by `soFar`)
 answer: `ok np (mean weight)* nu (mean weight)* processedWeight unprocessedWeight min max`, `panic`, or
 `badsort` when the permutation is malformed or does not sort by mean.
+
+Call sequences (Model/LatencySeq.lean):
+* `c11.seq maxP maxU hi lo  n op*  k (W <oracle>)*` — ops: `0 latency ts` (Metrics.Add), `1` (Close),
+  `2 qbits` (Latencies.Quantile), `3` (HDR report); one oracle per compaction, keyed by the total
+  weight `W` at that moment.  Answer: `ok` then per op ` | ` and what the call shows plus the latency
+  fields after it: `a requests total min max` / `c min p50 p90 p95 p99 max requests duration` /
+  `q d` / `h n (value,q,count,oneBy,dur)*`; `panic` / `badsort` end the line.
 -/
 namespace Vegeta.Driver.C11
-open Vegeta.Go Vegeta.Go.Proto Vegeta.Model.Quantile Vegeta.Model.TDigestMerge
+open Vegeta.Go Vegeta.Go.Proto Vegeta.Model.Quantile Vegeta.Model.TDigestMerge Vegeta.Model.LatencySeq
 
 def f64 : P F64 := do let b ← nat; pure ⟨b⟩
 
@@ -76,6 +84,76 @@ def showOutcomeTD (o : Outcome (TD F64)) : String :=
   | .ok s => showTD s
   | _ => "panic"
 
+inductive SeqOp where
+  | add (l ts : Int) | close | quantile (q : F64) | hdr
+
+def seqOp : P SeqOp := do
+  let tag ← nat
+  match tag with
+  | 0 => do let l ← int; let ts ← int; pure (.add l ts)
+  | 1 => pure .close
+  | 2 => do let q ← f64; pure (.quantile q)
+  | _ => pure .hdr
+
+def keyedOracle : P (Nat × Oracle) := do
+  let w ← nat
+  let o ← oracle
+  pure (w, o)
+
+/-- the sum of the weights of a buffer (exact: the weights are small integers) -/
+def weightSum (cs : List (Centroid F64)) : F64 := cs.foldl (fun s c => F64.add s c.weight) (F64.ofNat 0)
+
+def findOracle (os : List (Nat × Oracle)) (w : F64) : Option Oracle :=
+  (os.find? (fun p => p.1 == w.bits)).map (·.2)
+
+/-- limit function and sort of a whole history: the oracle recorded for the compaction at total weight W -/
+def seqEnv (maxP maxU : Nat) (hi lo : F64) (os : List (Nat × Oracle)) : Env F64 :=
+  { cfg := ⟨maxP, maxU, hi, lo⟩,
+    lim := { init := fun w => match findOracle os w with | some o => o.init | none => F64.nan,
+             next := fun soFar w => match findOracle os w with | some o => o.lim.next soFar w | none => F64.nan },
+    sortBy := fun all => match findOracle os (weightSum all) with
+      | some o => applyPerm o.perm all
+      | none => all,
+    trunc := F64.toInt64,
+    ladder := Vegeta.Extracted.c11_ladder }
+
+/-- every compaction of the history must find an oracle that really sorts its buffer -/
+def sortOK (os : List (Nat × Oracle)) (t : TD F64) : Bool :=
+  if needsProcess t then
+    let all := t.unprocessed ++ t.processed
+    match findOracle os (weightSum all) with
+    | some o => oracleOK o all
+    | none => false
+  else true
+
+def showRows (rs : List (HdrRow F64)) : String :=
+  rs.foldl (fun s r => s ++ " " ++ toString r.value.bits ++ "," ++ toString r.q.bits ++ "," ++ toString r.count ++ ","
+    ++ toString r.oneBy.bits ++ "," ++ toString r.dur) (toString rs.length)
+
+def runSeq (e : Env F64) (os : List (Nat × Oracle)) : MS F64 → List SeqOp → String → String
+  | _, [], acc => acc
+  | m, op :: ops, acc =>
+    -- the first compaction a query performs uses the oracle; check it before running the model
+    let pendingOK := match op, m.est with
+      | .add _ _, _ => true
+      | _, some t => sortOK os t
+      | _, none => true
+    if !pendingOK then acc ++ " | badsort" else
+    match op with
+    | .add l ts => match msAdd e m l ts with
+      | .ok m' => runSeq e os m' ops (acc ++ " | a " ++ toString m'.requests ++ " " ++ toString m'.total ++ " " ++ toString m'.min ++ " " ++ toString m'.max)
+      | _ => acc ++ " | panic"
+    | .close => match msClose e m with
+      | .ok m' => runSeq e os m' ops (acc ++ " | c " ++ toString m'.min ++ " " ++ toString m'.p50 ++ " " ++ toString m'.p90 ++ " " ++
+          toString m'.p95 ++ " " ++ toString m'.p99 ++ " " ++ toString m'.max ++ " " ++ toString m'.requests ++ " " ++ toString m'.duration)
+      | _ => acc ++ " | panic"
+    | .quantile q => match lmQuantile e m q with
+      | .ok (m', d) => runSeq e os m' ops (acc ++ " | q " ++ toString d)
+      | _ => acc ++ " | panic"
+    | .hdr => match hdrReport e m with
+      | .ok (m', rs) => runSeq e os m' ops (acc ++ " | h " ++ showRows rs)
+      | _ => acc ++ " | panic"
+
 def handle (op : String) (args : List String) : Option String :=
   match op with
   | "c11.quantile" => do
@@ -110,6 +188,13 @@ def handle (op : String) (args : List String) : Option String :=
     let ((s, o), _) ← (do let s ← tdState; let o ← oracle; pure (s, o)).run args
     if needsProcess s && !oracleOK o (s.unprocessed ++ s.processed) then pure "badsort" else
     pure (showOutcomeTD (process o.lim (applyPerm o.perm) s))
+  | "c11.seq" => do
+    let ((mp, mu, hi, lo, ops, os), _) ← (do
+      let mp ← nat; let mu ← nat; let hi ← f64; let lo ← f64
+      let ops ← listOf seqOp
+      let os ← listOf keyedOracle
+      pure (mp, mu, hi, lo, ops, os)).run args
+    pure (runSeq (seqEnv mp mu hi lo os) os MS.init ops "ok")
   | _ => none
 
 end Vegeta.Driver.C11
